@@ -112,7 +112,13 @@ var cfgCache = map[string]protoproducer.ProtoProducerConfig{}
 
 // cfg names: "none" (nil *ProducerConfig compiled), "yaml:<hex of yaml text>"
 func compileCfg(name string) (protoproducer.ProtoProducerConfig, error) {
-	if c, ok := cfgCache[name]; ok {
+	raw := strings.HasPrefix(name, "yamlj:")
+	if raw {
+		// "yamlj:" = "yaml:" with the JSON / text bytes printed by fmtchk; compiled afresh for every line: Compile
+		// writes the array flags of the custom fields into a package-level map (config_impl.go isSliceMap), so a
+		// configuration compiled earlier in this process would otherwise see the flags of a later one
+		name = "yaml:" + name[6:]
+	} else if c, ok := cfgCache[name]; ok {
 		return c, nil
 	}
 	var pc *protoproducer.ProducerConfig
@@ -131,7 +137,9 @@ func compileCfg(name string) (protoproducer.ProtoProducerConfig, error) {
 	if err != nil {
 		return nil, err
 	}
-	cfgCache[name] = c
+	if !raw {
+		cfgCache[name] = c
+	}
 	return c, nil
 }
 
